@@ -9,6 +9,7 @@ import (
 	"errors"
 	"fmt"
 	"io"
+	"sort"
 	"strings"
 	"time"
 
@@ -332,6 +333,56 @@ func (g gen12) mutate(s string) string {
 	return string(b)
 }
 
+// tagLine: 3-5 tags in RANDOM order (so that scanKey's sort path runs) over keys that are
+// proper prefixes of one another with continuations below and above '=' ; optionally one key is
+// duplicated (the smallest, a middle or the greatest of the set) at a random position.
+var prefixKeys = []string{"host", "host2", "host-1", "host.x", "ho", "host:a", "h", "hosts", "host_", "hostA", "zone", "a", "z", "region", "host!", `host\ x`, `host\,`}
+
+func (g gen12) tagLine() string {
+	n := 3 + g.n(3)
+	perm := g.w.Rng.Perm(len(prefixKeys))
+	keys := make([]string, 0, n+1)
+	for _, i := range perm[:n] {
+		keys = append(keys, prefixKeys[i])
+	}
+	if g.n(3) == 0 { // mostly keys around one stem
+		stem := []string{"host", "host2", "host-1", "host.x", "ho", "host:a", "hosts", "host_", "hostA", "host!"}
+		p2 := g.w.Rng.Perm(len(stem))
+		keys = keys[:0]
+		for _, i := range p2[:n] {
+			keys = append(keys, stem[i])
+		}
+	}
+	if g.n(2) == 0 { // duplicate one key: min / middle / max of the set
+		sorted := append([]string{}, keys...)
+		sort.Strings(sorted)
+		dup := sorted[[]int{0, len(sorted) / 2, len(sorted) - 1}[g.n(3)]]
+		pos := g.n(len(keys) + 1)
+		keys = append(keys[:pos], append([]string{dup}, keys[pos:]...)...)
+	}
+	if g.n(4) == 0 {
+		sort.Strings(keys)
+	}
+	var b strings.Builder
+	b.WriteString(g.pick("cpu", "m", `m\ x`))
+	for i, k := range keys {
+		b.WriteString("," + k + "=" + g.pick("a", "b", "c", "1", "x") + fmt.Sprint(i))
+	}
+	b.WriteString(" value=" + g.pick("1", "1i", "t", `"s"`))
+	if g.n(2) == 0 {
+		b.WriteString(" " + g.pick("1", "1000000000", "-5"))
+	}
+	return b.String()
+}
+
+func (g gen12) tagBody() j12 {
+	var lines []string
+	for i := 1 + g.n(2); i > 0; i-- {
+		lines = append(lines, g.tagLine())
+	}
+	return j12{Body: []byte(strings.Join(lines, "\n")), Prec: g.pick("ns", "ns", "s", "ms"), Dflt: defaults[g.n(3)], Stream: "tags"}
+}
+
 var defaults = []int64{1700000000123456789, 0, -1234567890123456, 1, models.MaxNanoTime, models.MinNanoTime + 3600000000000, 59999999999, -1}
 
 func (g gen12) prec() string {
@@ -423,6 +474,10 @@ func corpus12() []j12 {
 		mk("m f=1\\\n", "ns"),
 		mk("m,time=1 f=1\nm,_field=1 f=1\nm,_measurement=1 f=1\nm,\xff=1 f=1\nm,\x00=1 f=1", "ns"),
 		mk("m,b=1,a=2,c=3,a=4 f=1", "ns"),
+		mk("cpu,zone=c,host2=b,host=a value=1 1", "ns"), // prefix keys, unsorted: sort must compare KEYS
+		mk("cpu,z=1,a=2,z=3 value=1i 1000000000", "ns"), // unsorted, the GREATEST key duplicated
+		mk("cpu,b=1,a=2,a=3 value=1i", "ns"), mk("cpu,c=1,b=2,a=3,b=4 value=1i", "ns"),
+		mk("cpu,host.x=1,host=2,host-1=3,host2=4,ho=5,host:a=6 value=1", "ns"),
 		mk("m,a\\ =x,a\"=y f=1i 5", "ns"),
 		mk("m f=1 9223372036", "s"), mk("m f=1 9223372037", "s"), mk("m f=1 -9223372036854775806", "ns"), mk("m f=1 -9223372036854775807", "ns"),
 		mk("m f=1 9223372036854775", "us"), mk("m f=1 9223372036854776", "us"), mk("m f=1 5", "u"), mk("m f=1", "h"), mk("m f=1", "m"), mk("m f=1", "u"),
@@ -437,7 +492,7 @@ func corpus12() []j12 {
 }
 
 func main12(w *vh.W) {
-	w.Rule = "bodies of 1-3 lines in three streams: (structured) grammatically valid lines over escape-heavy names/tags/fields, numbers at every limit of scanNumber (19/20/25-digit windows, int64/uint64/float64 range edges, malformed exponents), all boolean spellings, quoted strings with escapes/newlines, timestamps at the int64 and precision-multiplication edges, then 0-2 mutations (drop/duplicate a delimiter, move a quote, append/insert a backslash, TAB/NUL/CR/newline insertion, duplicate a tag, cut, swap, replace); (semi) skeleton m<r>,a<r>=v<r> f<r>=<value> <ts> with random short strings over {a b space , = \" \\ é 1 i t}; (raw) up to 27 random tokens over a small alphabet incl. newline, #, quotes, backslash, TAB, NUL; all precisions incl. unsupported spellings; hand-picked corpus first (key-length limits with 65k-byte keys, reserved tag keys, the known finding shape). Non-trivial: >=2 points, or points and rejections, or a rejection on a body longer than 8 bytes. Distinct: distinct Gallina terms."
+	w.Rule = "bodies of 1-3 lines in three streams: (structured) grammatically valid lines over escape-heavy names/tags/fields, numbers at every limit of scanNumber (19/20/25-digit windows, int64/uint64/float64 range edges, malformed exponents), all boolean spellings, quoted strings with escapes/newlines, timestamps at the int64 and precision-multiplication edges, then 0-2 mutations (drop/duplicate a delimiter, move a quote, append/insert a backslash, TAB/NUL/CR/newline insertion, duplicate a tag, cut, swap, replace); (semi) skeleton m<r>,a<r>=v<r> f<r>=<value> <ts> with random short strings over {a b space , = \" \\ é 1 i t}; (raw) up to 27 random tokens over a small alphabet incl. newline, #, quotes, backslash, TAB, NUL; (tags) lines with 3-5 tags in random order over keys that are proper prefixes of one another (host host2 host-1 host.x ho host:a ...), half of them with one key (min/middle/max) duplicated at a random position; all precisions incl. unsupported spellings; hand-picked corpus first (key-length limits with 65k-byte keys, reserved tag keys, the known finding shape). Non-trivial: >=2 points, or points and rejections, or a rejection on a body longer than 8 bytes. Distinct: distinct Gallina terms."
 	var rc j12
 	if w.ReplayCase(&rc) {
 		run12(w, &rc)
@@ -452,6 +507,8 @@ func main12(w *vh.W) {
 	for w.Len() < w.N {
 		var c j12
 		switch x := g.n(10); {
+		case x < 2:
+			c = g.tagBody()
 		case x < 6:
 			c = g.structured()
 		case x < 8:
